@@ -388,11 +388,19 @@ def tp4_eval(F):
     if key in _TP4_CACHE:
         return _TP4_CACHE[key]
     import itertools
-    from vecint import VecInterp
+    from layerint import LayerInterp
     from absint import Undecidable, Panic
     b2t, t2b = F.funcs.get(TP + "bytes_to_tuples"), F.funcs.get(TP + "tuples_to_bytes")
     n = 0
     rt_bad, fmt_bad, undec = [], [], None
+    # one world for the whole domain: whatever the codec keeps per thread (a thread_local table, a scratch buffer) lives as
+    # long as a worker does, and the classes of the domain follow one another on it
+    world = {"tls_init": {}}
+
+    def VecInterp(F_):
+        it = LayerInterp(F_)
+        it.world = world
+        return it
     domain = []
     for alpha, maxlen in ((4, 5), (6, 4), (16, 3)):
         for L in range(1, maxlen + 1):
@@ -624,6 +632,7 @@ def layer_eval(F, tls_init=None):
     res, undec, tls_used = {}, None, set()
     # one world per evaluation order: the thread-local state lives as long as the "thread" does
     world = {"tls_init": dict(tls_init or {})}
+    dworld = {"tls_init": {}}            # the reading thread keeps its state over the whole domain as well
     for x in layer_domain():
         if tls_init is not None:
             world = {"tls_init": dict(tls_init)}          # every item starts from the given left-over state
@@ -637,7 +646,7 @@ def layer_eval(F, tls_init=None):
             p = r.get(0, r.get("0"))
             blob, marker = list(p[0]), p[1]
             it2 = LayerInterp(F)
-            it2.world = {"tls_init": {}}
+            it2.world = dworld
             y = it2.call(dm, [("refval", list(blob)), marker])
             if isinstance(y, dict) and y.get("__var") == "Ok":
                 res[x] = (marker, blob, list(y.get(0, y.get("0"))))
